@@ -101,7 +101,7 @@ func gatedChild(args []string) {
 		os.Exit(2)
 	}
 	gChildProp = args[0]
-	top, err := os.MkdirTemp("", "vh-gated-child-")
+	top, err := lib.MkScratch("vh-gated-child-")
 	if err != nil {
 		fmt.Fprintln(os.Stderr, err)
 		os.Exit(2)
@@ -260,7 +260,7 @@ func gRunChild(dir, prop string, in gBatchIn, tag string, timeout time.Duration,
 // gRunBatches runs all jobs and returns one summary per job, in order. A batch whose child dies is re-run job by job;
 // a job whose own child dies is reported as a crash observation.
 func gRunBatches(c *lib.Ctx, prop string, jobs []json.RawMessage, batch int, modelOK bool, describe func(json.RawMessage) (server string, input any)) []gSummary {
-	dir, err := os.MkdirTemp("", "vh-gated-parent-")
+	dir, err := lib.MkScratch("vh-gated-parent-")
 	if err != nil {
 		c.R.Fail(lib.Failure{Kind: "tie", Key: "harness/tmpdir", What: err.Error()})
 		return nil
